@@ -12,30 +12,7 @@ use kismet_vfs::kernel::{Tape, K};
 
 pub struct C18;
 
-pub fn errnos_for(kind: K, creating: bool) -> Vec<i32> {
-    use libc::*;
-    match kind {
-        K::Open | K::OpenTmp | K::Opendir => {
-            let mut v = vec![EIO, EACCES, EMFILE, ENFILE, ENOMEM, ESTALE, EINTR];
-            if creating {
-                v.extend([ENOSPC, EDQUOT]);
-            }
-            v
-        }
-        K::Read | K::Readdir => vec![EIO, ESTALE, EINTR],
-        K::Write => vec![EIO, ENOSPC, EDQUOT, EINTR],
-        K::Fsync | K::Fdatasync => vec![EIO, ENOSPC, EDQUOT],
-        K::Close | K::Closedir => vec![EIO, ENOSPC, EINTR],
-        K::Stat | K::Lstat | K::Fstat | K::FstatAt => vec![EIO, EACCES, ESTALE, ENOMEM],
-        K::Chmod | K::Fchmod | K::Utimens | K::Futimens => vec![EIO, EPERM, EACCES, EROFS, ESTALE],
-        K::Rename => vec![EIO, EACCES, ENOSPC, EDQUOT, EXDEV, ESTALE, EROFS],
-        K::Link => vec![EIO, EACCES, ENOSPC, EDQUOT, EXDEV, EMLINK, ESTALE, EROFS],
-        K::Unlink | K::Rmdir => vec![EIO, EACCES, EPERM, EROFS, ESTALE],
-        K::Mkdir => vec![EIO, EACCES, ENOSPC, EDQUOT, EMLINK, EROFS],
-        K::Truncate => vec![EIO, ENOSPC],
-        K::Seek | K::Lock => vec![],
-    }
-}
+pub use crate::common::errnos_for;
 
 fn judge_fault(sc: &Scenario, ex: &mut Exec, kind: K, idx: u64, errno: i32, fired: bool, failed_path: &str) -> Option<Violation> {
     let mk = |class: &str, msg: String| Some(Violation::new(class, msg).attr("op", sc.op.name()).attr("call", format!("{:?}", kind)).attr("errno", errno_name(errno)));
